@@ -25,7 +25,8 @@ ASSUMPTIONS = [
     "grains with ambiguous least-active tie or max|I/tau| < 1e-9 are excluded as the property states (counted)",
     "compiled-vs-interpreted agreement is decided on the cases of the paired streams only",
 ]
-TOLERANCES = {"dA": 1e-10, "df": "1e-10*max(1,|df|_inf)", "jit_vs_interp": 1e-10}
+TOLERANCES = {"dA": "1e-10*kappa", "df": "1e-10*max(1,|df|_inf)*kappa", "jit_vs_interp": "1e-10*kappa",
+              "kappa": "max(1, 1e-4 / min over compared grains of the largest slip activity)"}
 REQUIRED_MONITORS = ["rotation_rate_equals_reference", "volume_rate_equals_reference"]
 
 RANGES = [(315, 342), (386, 474), (477, 538), (541, 598), (601, 642), (645, 684), (687, 770)]
@@ -62,6 +63,12 @@ def gen_cases(ctx):
             "M": float(rng.uniform(0, 200)) if rng.random() < 0.7 else float(rng.choice([0.0, 125.0, 200.0])),
             "phi": float(rng.uniform(0.05, 1.0)) if rng.random() < 0.7 else 1.0,
         }
+        if rng.random() < 0.25:
+            case["M"] = float(int(case["M"]))
+            case["M_int"] = True
+        if rng.random() < 0.15:
+            case["nexp"] = float(rng.choice([2.0, 3.0, 4.0, 5.0]))
+            case["p"] = float(rng.choice([1.0, 2.0, 1.5]))
         yield case
 
 
@@ -80,7 +87,7 @@ def call(pydrex, case, A, f, L):
         regime=core.DeformationRegime(case["regime"]), phase=phase, fabric=fabric, n_grains=case["n"],
         orientations=A, fractions=f, strain_rate=(L + L.T) / 2, velocity_gradient=L,
         deformation_gradient_spin=np.zeros((3, 3)), stress_exponent=case["p"],
-        deformation_exponent=case["nexp"], nucleation_efficiency=case["lam"], gbm_mobility=case["M"],
+        deformation_exponent=case["nexp"], nucleation_efficiency=case["lam"], gbm_mobility=(int(case["M"]) if case.get("M_int") else case["M"]),
         volume_fraction=case["phi"])
 
 
@@ -115,6 +122,11 @@ def check_case(ctx, case, store=None):
     ctx.cls(f"tex={case['tex']}")
     ctx.cls(f"L={case['Lkind']}")
     keep = ~excl
+    # conditioning: the slip-rate ratios are scale free in the invariants, whose absolute rounding error is ~1e-16;
+    # a grain whose largest activity is a (near axis-aligned grains: down to 1e-9) carries relative errors ~1e-16/a
+    amin = float(info["amax"][keep].min()) if keep.any() else 1.0
+    kappa = max(1.0, 1e-4 / max(amin, 1e-300))
+    ctx.extreme("conditioning_factor", kappa)
     # non-trivial: some kept grain with two active systems (olivine) / active system (enstatite)
     nz = (np.abs(info["beta"]) > 1e-12).sum(1)
     nontriv = bool(np.any(keep & (nz >= (2 if int(phase) == 0 else 1))))
@@ -122,18 +134,18 @@ def check_case(ctx, case, store=None):
     if keep.any():
         errA = float(np.abs(dA[keep] - rA[keep]).max())
         ctx.extreme("max|dA-ref|", errA)
-        ctx.check("rotation_rate_equals_reference", errA <= 1e-10, case, err=errA,
+        ctx.check("rotation_rate_equals_reference", errA <= 1e-10 * kappa, case, err=errA, kappa=kappa,
                   worst_grain=int(np.argmax(np.abs(dA - rA).max(axis=(1, 2)) * keep)))
     if not excl.any():
         scale = max(1.0, float(np.abs(rf).max()))
         errf = float(np.abs(df - rf).max())
         ctx.extreme("max|df-ref|/scale", errf / scale)
-        ctx.check("volume_rate_equals_reference", errf <= 1e-10 * scale, case, err=errf, scale=scale,
+        ctx.check("volume_rate_equals_reference", errf <= 1e-10 * scale * kappa, case, err=errf, scale=scale, kappa=kappa,
                   M=case["M"], lam=case["lam"])
     else:
         ctx.count("cases_df_skipped_illconditioned")
     if store is not None:
-        store.append((case["i"], dA, df))
+        store.append((case["i"], dA, df, kappa))
     if len(ctx.samples) < 3 and nontriv:
         ctx.sample(case, max_abs_dA=float(np.abs(dA).max()), max_abs_df=float(np.abs(df).max()),
                    err_dA=float(np.abs(dA[keep] - rA[keep]).max()) if keep.any() else None)
@@ -161,7 +173,8 @@ def run(ctx):
         stream = ctx.spec.get("stream", ctx.shard)
         np.savez(os.path.join(shared, f"{ctx.mode}-{stream}.npz"),
                  idx=np.array([s[0] for s in store]),
-                 **{f"dA{s[0]}": s[1] for s in store}, **{f"df{s[0]}": s[2] for s in store})
+                 **{f"dA{s[0]}": s[1] for s in store}, **{f"df{s[0]}": s[2] for s in store},
+                 **{f"kappa{s[0]}": np.array(s[3]) for s in store})
 
 
 def cross(ctx, shared):
@@ -190,8 +203,9 @@ def cross(ctx, shared):
             nanmismatch = bool(np.isnan(dA1).any() != np.isnan(dA2).any() or np.isnan(df1).any() != np.isnan(df2).any())
             ctx.extreme("jit_vs_interp_dA", eA)
             ctx.extreme("jit_vs_interp_df/scale", ef / sc)
-            ctx.check("jit_equals_interpreted", (eA <= 1e-10 and ef <= 1e-10 * sc) and not nanmismatch, case,
-                      err_dA=eA, err_df=ef)
+            kap = float(b[f"kappa{i}"]) if f"kappa{i}" in b.files else 1.0
+            ctx.check("jit_equals_interpreted", (eA <= 1e-10 * kap and ef <= 1e-10 * sc * kap) and not nanmismatch, case,
+                      err_dA=eA, err_df=ef, kappa=kap)
 
 
 def finalize(merged, tier):
